@@ -13,19 +13,25 @@ from ..report import Ctx
 from .common import DECIDER, RANDOM_SOURCE
 
 LEVEL_TEXT = (
-    "(R1/R2) Abstract interpretation (affine relational domain with Fourier-Motzkin entailment and integer tightening; each "
-    "random draw is a fresh exact symbol constrained to its range, gene values are arbitrary integers, pure helper functions "
-    "inlined) of every implementation found through the RandomSource / SynthesisDecider hierarchy: randint and the deciders' "
-    "random_int return a value within [min, max] for all min <= max, with every modulus provably positive; random_float "
-    "stays within [min, max]. (R3) choice indexes within range for every length (affine), and the derived primitives are "
-    "interpreted exhaustively on small models (sa/rules/c18model.py: lists of distinct symbols, self.randint taking every "
-    "value of its range): choice returns an element for every draw and every element for some draw; shuffle returns its "
-    "argument as a permutation, producing each of the n! orders for exactly one draw sequence (n <= 4); pop_random removes "
-    "exactly the element it returns, each element for exactly one draw; choice_weighted, on six weight vectors with zero "
-    "weights first / last / in the middle, returns for every draw a comparison can distinguish the option whose cumulative "
-    "interval contains it - never a zero-weight option - and, when the quantities are identifiable, draws strictly below "
-    "the total for every total (affine). (R4) NativeRandomSource draws only from a private random.Random(seed). A "
-    "containment that fails is reported only with an attainable witness or when it fails on every model."
+    "(R1/R2) Abstract interpretation (affine relational domain with Fourier-Motzkin entailment and integer "
+    "tightening; each random draw is a fresh exact symbol constrained to its range, gene values are arbitrary "
+    "integers, pure helper functions inlined) of every implementation found through the RandomSource / "
+    "SynthesisDecider hierarchy: randint and the deciders' random_int return a value within [min, max] for all "
+    "min <= max, with every modulus provably positive; random_float stays within [min, max]; a template method of"
+    " an abstract source (randint calling an abstract hook) is analysed once per concrete subclass; where the "
+    "affine domain cannot express a result (a product of two unknowns) the function is interpreted at a grid of "
+    "concrete bounds and gene values, and a result outside the bounds is a definite counterexample (none found "
+    "decides nothing). (R3) choice indexes within range for every length (affine), and the derived primitives are"
+    " interpreted exhaustively on small models (sa/rules/c18model.py: lists of distinct symbols, self.randint "
+    "taking every value of its range): choice returns an element for every draw and every element for some draw; "
+    "shuffle returns its argument as a permutation, producing each of the n! orders for exactly one draw sequence"
+    " (n <= 4); pop_random removes exactly the element it returns, each element for exactly one draw; "
+    "choice_weighted, on eight weight vectors with zero weights first / last / in the middle and fractional "
+    "weights whose truncations differ (either consistent discretisation is accepted), returns for every draw a "
+    "comparison can distinguish the option whose cumulative interval contains it - never a zero-weight option - "
+    "and, when the quantities are identifiable, draws strictly below the total for every total (affine). (R4) "
+    "NativeRandomSource draws only from a private random.Random(seed). A containment that fails is reported only "
+    "with an attainable witness or when it fails on every model."
 )
 
 MAXSIZE = "sys.maxsize"
